@@ -20,7 +20,7 @@ def find(labels, q):
     return None
 
 
-def build(ctx, shape, lkinds, dkind='f', prime=False, order=None):
+def build(ctx, shape, lkinds, dkind='f', prime=False, order=None, layout=None):
     """prime: put the axes' lazily cached state (Axis._monotonic) into its other legitimate value by
     calling the public query is_monotonic() first - results must not depend on it"""
     dims = DIMS[:len(shape)]
@@ -29,7 +29,7 @@ def build(ctx, shape, lkinds, dkind='f', prime=False, order=None):
     for n in shape:
         ncell *= n
     cells = ctx.cells(dkind, ncell, 'v')
-    a = ctx.mk(dims, labels, cells, lkinds=lkinds, kind=dkind)
+    a = ctx.mk(dims, labels, cells, lkinds=lkinds, kind=dkind, layout=layout)
     if prime:
         for ax in a.axes:
             ax.is_monotonic()
